@@ -307,3 +307,555 @@ Example with_field_ex :
      (WArr (TList None None tint) [VList [i64 10; i64 20]; VList []])
   = Ok (VList [VList [VRec [([120], i64 1); ([121], i64 10)]; VRec [([120], i64 2); ([121], i64 20)]]; VList []]).
 Proof. reflexivity. Qed.
+
+(* ====================================================================== C18: partitioned arrays *)
+
+(* ====================================================================== C18, partitioned half *)
+(* A partitioned array (awkward.partition.PartitionedArray) is a list of arrays [parts] of one type [t] standing for
+   [concat parts].  partition.py applies an operation to every partition separately whenever
+   [first(self).axis_wrap_if_negative(axis) != 0] (for reducers: unless "not branch and negaxis == depth").
+   The theorems say that this gives the value - and the error status - of the operation on the concatenation:
+       op (xs ++ ys) = lift2 app (op xs) (op ys)        [lift2: both must succeed, the LEFT error wins]
+       op (concat parts) = rmap concat (mapM op parts)  [the first failing partition gives the error]
+   and give the combination rules used when the axis is the outermost one / there is no axis. *)
+From Coq Require Import Permutation.
+From AwkV Require Import Ops_Sort.
+From AwkPy Require Import Proofs_Partition Proofs_Partition2 Proofs_Partition3.
+
+(* example partitions: var * ?{x: int64, y: var * int64} and var * ?(var * int64), three partitions, the middle one empty *)
+Definition pt_t : ty := TList None None (TOpt (TRec (Some [[120]; [121]]) [tint; TList None None tint])).
+Definition pt_rec (x : Z) (ys : list Z) : value := VRec [([120], i64 x); ([121], VList (map i64 ys))].
+Definition pt_parts : list (list value) :=
+  [ [VList [pt_rec 1 [10; 11]; VNone]; VList []];  [];  [VList [pt_rec 2 []; pt_rec 3 [30]; VNone]] ].
+Definition pt_u : ty := TList None None (TOpt (TList None None tint)).
+Definition pt_uparts : list (list value) :=
+  [ [VList [VList [i64 3; i64 1]; VNone]; VList []];  [];  [VList [VList []; VList [i64 2; i64 2; i64 0]]] ].
+
+(* ---- which error wins ---- *)
+Theorem lift2_succeeds : forall (A B C : Type) (f : A -> B -> C) (a : res A) (b : res B) (c : C),
+  lift2 f a b = Ok c <-> exists x y, a = Ok x /\ b = Ok y /\ c = f x y.
+Proof. exact (@lift2_ok). Qed.
+Print Assumptions lift2_succeeds.
+Theorem lift2_error_wins : forall (A B C : Type) (f : A -> B -> C) (a : res A) (b : res B) (e : err),
+  lift2 f a b = Err e <-> a = Err e \/ (exists x, a = Ok x) /\ b = Err e.
+Proof. exact (@lift2_err). Qed.
+Print Assumptions lift2_error_wins.
+Example lift2_error_wins_ex :
+  lift2 (@app value) (Err EFuel) (Err EValue) = Err EFuel /\ lift2 (@app value) (Ok [VNone]) (Err EValue) = Err EValue.
+Proof. split; reflexivity. Qed.
+
+(* ---- the at-axis combinator: ANY per-list action, ANY axis ---- *)
+Theorem spec_ax_app : forall (f : ty -> list value -> res value) (unk_ok : bool) (fchk : ty -> bool) (str_ok : bool)
+    (t : ty) (axis : Z) (xs ys : list value),
+  spec_ax f unk_ok fchk str_ok t axis (xs ++ ys) =
+  lift2 (@app value) (spec_ax f unk_ok fchk str_ok t axis xs) (spec_ax f unk_ok fchk str_ok t axis ys).
+Proof. exact spec_ax_app_lemma. Qed.
+Print Assumptions spec_ax_app.
+Theorem spec_ax_parts : forall (f : ty -> list value -> res value) (unk_ok : bool) (fchk : ty -> bool) (str_ok : bool)
+    (t : ty) (axis : Z) (parts : list (list value)),
+  parts <> [] ->
+  spec_ax f unk_ok fchk str_ok t axis (concat parts) =
+  rmap (@concat value) (mapM (spec_ax f unk_ok fchk str_ok t axis) parts).
+Proof. exact spec_ax_parts_lemma. Qed.
+Print Assumptions spec_ax_parts.
+Theorem spec_ax_fold : forall (f : ty -> list value -> res value) (unk_ok : bool) (fchk : ty -> bool) (str_ok : bool)
+    (t : ty) (axis : Z) (parts : list (list value)),
+  spec_ax f unk_ok fchk str_ok t axis (concat parts) =
+  fold_right (fun p acc => lift2 (@app value) (spec_ax f unk_ok fchk str_ok t axis p) acc)
+             (spec_ax f unk_ok fchk str_ok t axis []) parts.
+Proof. exact spec_ax_fold_lemma. Qed.
+Print Assumptions spec_ax_fold.
+Example spec_ax_parts_ex :
+  spec_ax num_f true (fun _ => true) true pt_t 1 (concat pt_parts) = Ok [i64 2; i64 0; i64 3] /\
+  rmap (@concat value) (mapM (spec_ax num_f true (fun _ => true) true pt_t 1) pt_parts) = Ok [i64 2; i64 0; i64 3] /\
+  (* an error inside the last partition (a number where a list should be) is the error of the whole *)
+  spec_ax num_f true (fun _ => true) true pt_u 2 (concat [[VList [VList []]]; []; [VList [i64 7]]]) = Err EValue /\
+  rmap (@concat value) (mapM (spec_ax num_f true (fun _ => true) true pt_u 2) [[VList [VList []]]; []; [VList [i64 7]]])
+    = Err EValue.
+Proof. repeat split; reflexivity. Qed.
+
+(* ---- "the axis is not the outermost one": whole-array resolution and per-node resolution agree ---- *)
+Theorem axis_top_inner : forall t axis ax,
+  resolve_axis_top t axis = Ok ax -> (ax =? 0) = false -> axis_inner t axis = true.
+Proof. exact top_resolved_inner. Qed.
+Print Assumptions axis_top_inner.
+Example axis_below_top_ex :
+  axis_below_top pt_t 1 = true /\ axis_below_top pt_t (-1) = true /\ axis_below_top pt_u (-1) = true /\
+  axis_below_top pt_u 2 = true /\ axis_inner pt_u (-1) = true /\ axis_inner pt_t 1 = true /\
+  axis_below_top pt_u (-3) = false /\ axis_below_top pt_t 0 = false.
+Proof. repeat split; reflexivity. Qed.
+
+(* ---- ak.num ---- *)
+Theorem spec_num_app : forall axis t xs ys,
+  axis_below_top t axis = true ->
+  spec_num axis t (xs ++ ys) = lift2 vapp (spec_num axis t xs) (spec_num axis t ys).
+Proof. exact spec_num_app_lemma. Qed.
+Print Assumptions spec_num_app.
+Theorem spec_num_parts : forall axis t parts,
+  axis_below_top t axis = true -> parts <> [] ->
+  spec_num axis t (concat parts) = rmap vconcat (mapM (spec_num axis t) parts).
+Proof. exact spec_num_parts_lemma. Qed.
+Print Assumptions spec_num_parts.
+Example spec_num_parts_ex :
+  spec_num 1 pt_t (concat pt_parts) = Ok (VList [i64 2; i64 0; i64 3]) /\
+  rmap vconcat (mapM (spec_num 1 pt_t) pt_parts) = Ok (VList [i64 2; i64 0; i64 3]) /\
+  spec_num (-1) pt_u (concat pt_uparts) = Ok (VList [VList [i64 2; VNone]; VList []; VList [i64 0; i64 3]]) /\
+  rmap vconcat (mapM (spec_num (-1) pt_u) pt_uparts) = Ok (VList [VList [i64 2; VNone]; VList []; VList [i64 0; i64 3]]).
+Proof. repeat split; reflexivity. Qed.
+
+(* ---- ak.local_index ---- *)
+Theorem spec_local_index_app : forall axis t xs ys,
+  axis_below_top t axis = true ->
+  spec_local_index axis t (xs ++ ys) = lift2 vapp (spec_local_index axis t xs) (spec_local_index axis t ys).
+Proof. exact spec_local_index_app_lemma. Qed.
+Print Assumptions spec_local_index_app.
+Theorem spec_local_index_parts : forall axis t parts,
+  axis_below_top t axis = true -> parts <> [] ->
+  spec_local_index axis t (concat parts) = rmap vconcat (mapM (spec_local_index axis t) parts).
+Proof. exact spec_local_index_parts_lemma. Qed.
+Print Assumptions spec_local_index_parts.
+Example spec_local_index_parts_ex :
+  spec_local_index 1 pt_t (concat pt_parts) = Ok (VList [VList [i64 0; i64 1]; VList []; VList [i64 0; i64 1; i64 2]]) /\
+  rmap vconcat (mapM (spec_local_index 1 pt_t) pt_parts)
+    = Ok (VList [VList [i64 0; i64 1]; VList []; VList [i64 0; i64 1; i64 2]]) /\
+  spec_local_index (-1) pt_u (concat pt_uparts) = rmap vconcat (mapM (spec_local_index (-1) pt_u) pt_uparts) /\
+  spec_local_index (-1) pt_u (concat pt_uparts)
+    = Ok (VList [VList [VList [i64 0; i64 1]; VNone]; VList []; VList [VList []; VList [i64 0; i64 1; i64 2]]]).
+Proof. repeat split; reflexivity. Qed.
+
+(* ---- ak.pad_none (clip = False: rpad, clip = True: rpad_and_clip) ---- *)
+Theorem spec_pad_none_app : forall target axis clip t xs ys,
+  axis_below_top t axis = true ->
+  spec_pad_none target axis clip t (xs ++ ys) =
+  lift2 vapp (spec_pad_none target axis clip t xs) (spec_pad_none target axis clip t ys).
+Proof. exact spec_pad_none_app_lemma. Qed.
+Print Assumptions spec_pad_none_app.
+Theorem spec_pad_none_parts : forall target axis clip t parts,
+  axis_below_top t axis = true -> parts <> [] ->
+  spec_pad_none target axis clip t (concat parts) = rmap vconcat (mapM (spec_pad_none target axis clip t) parts).
+Proof. exact spec_pad_none_parts_lemma. Qed.
+Print Assumptions spec_pad_none_parts.
+Example spec_pad_none_parts_ex :
+  spec_pad_none 2 1 true pt_t (concat pt_parts)
+    = Ok (VList [VList [pt_rec 1 [10; 11]; VNone]; VList [VNone; VNone]; VList [pt_rec 2 []; pt_rec 3 [30]]]) /\
+  rmap vconcat (mapM (spec_pad_none 2 1 true pt_t) pt_parts) = spec_pad_none 2 1 true pt_t (concat pt_parts) /\
+  spec_pad_none 2 2 false pt_u (concat pt_uparts)
+    = Ok (VList [VList [VList [i64 3; i64 1]; VNone]; VList []; VList [VList [VNone; VNone]; VList [i64 2; i64 2; i64 0]]]) /\
+  rmap vconcat (mapM (spec_pad_none 2 2 false pt_u) pt_uparts) = spec_pad_none 2 2 false pt_u (concat pt_uparts).
+Proof. repeat split; reflexivity. Qed.
+
+(* ---- ak.combinations / ak.argcombinations ---- *)
+Theorem spec_combinations_app : forall n repl axis fields t xs ys,
+  axis_below_top t axis = true ->
+  spec_combinations n repl axis fields t (xs ++ ys) =
+  lift2 vapp (spec_combinations n repl axis fields t xs) (spec_combinations n repl axis fields t ys).
+Proof. exact spec_combinations_app_lemma. Qed.
+Print Assumptions spec_combinations_app.
+Theorem spec_combinations_parts : forall n repl axis fields t parts,
+  axis_below_top t axis = true -> parts <> [] ->
+  spec_combinations n repl axis fields t (concat parts) =
+  rmap vconcat (mapM (spec_combinations n repl axis fields t) parts).
+Proof. exact spec_combinations_parts_lemma. Qed.
+Print Assumptions spec_combinations_parts.
+Example spec_combinations_parts_ex :
+  spec_combinations 2 false 1 None pt_t (concat pt_parts)
+    = Ok (VList [VList [VTup [pt_rec 1 [10; 11]; VNone]]; VList [];
+                 VList [VTup [pt_rec 2 []; pt_rec 3 [30]]; VTup [pt_rec 2 []; VNone]; VTup [pt_rec 3 [30]; VNone]]]) /\
+  rmap vconcat (mapM (spec_combinations 2 false 1 None pt_t) pt_parts)
+    = spec_combinations 2 false 1 None pt_t (concat pt_parts) /\
+  spec_combinations 2 false (-1) None pt_u (concat pt_uparts)
+    = Ok (VList [VList [VList [VTup [i64 3; i64 1]]; VNone]; VList [];
+                 VList [VList []; VList [VTup [i64 2; i64 2]; VTup [i64 2; i64 0]; VTup [i64 2; i64 0]]]]) /\
+  rmap vconcat (mapM (spec_combinations 2 false (-1) None pt_u) pt_uparts)
+    = spec_combinations 2 false (-1) None pt_u (concat pt_uparts).
+Proof. repeat split; reflexivity. Qed.
+
+Theorem spec_argcombinations_app : forall n repl axis fields t xs ys,
+  axis_below_top t axis = true ->
+  spec_argcombinations n repl axis fields t (xs ++ ys) =
+  lift2 vapp (spec_argcombinations n repl axis fields t xs) (spec_argcombinations n repl axis fields t ys).
+Proof. exact spec_argcombinations_app_lemma. Qed.
+Print Assumptions spec_argcombinations_app.
+Theorem spec_argcombinations_parts : forall n repl axis fields t parts,
+  axis_below_top t axis = true -> parts <> [] ->
+  spec_argcombinations n repl axis fields t (concat parts) =
+  rmap vconcat (mapM (spec_argcombinations n repl axis fields t) parts).
+Proof. exact spec_argcombinations_parts_lemma. Qed.
+Print Assumptions spec_argcombinations_parts.
+Example spec_argcombinations_parts_ex :
+  spec_argcombinations 2 true 1 None pt_t (concat pt_parts)
+    = Ok (VList [VList [VTup [i64 0; i64 0]; VTup [i64 0; i64 1]; VTup [i64 1; i64 1]]; VList [];
+                 VList [VTup [i64 0; i64 0]; VTup [i64 0; i64 1]; VTup [i64 0; i64 2];
+                        VTup [i64 1; i64 1]; VTup [i64 1; i64 2]; VTup [i64 2; i64 2]]]) /\
+  rmap vconcat (mapM (spec_argcombinations 2 true 1 None pt_t) pt_parts)
+    = spec_argcombinations 2 true 1 None pt_t (concat pt_parts).
+Proof. split; reflexivity. Qed.
+
+(* ---- ak.firsts ---- *)
+Theorem spec_firsts_app : forall axis t xs ys,
+  axis_below_top t axis = true ->
+  spec_firsts axis t (xs ++ ys) = lift2 vapp (spec_firsts axis t xs) (spec_firsts axis t ys).
+Proof. exact spec_firsts_app_lemma. Qed.
+Print Assumptions spec_firsts_app.
+Theorem spec_firsts_parts : forall axis t parts,
+  axis_below_top t axis = true -> parts <> [] ->
+  spec_firsts axis t (concat parts) = rmap vconcat (mapM (spec_firsts axis t) parts).
+Proof. exact spec_firsts_parts_lemma. Qed.
+Print Assumptions spec_firsts_parts.
+Example spec_firsts_parts_ex :
+  spec_firsts 1 pt_t (concat pt_parts) = Ok (VList [pt_rec 1 [10; 11]; VNone; pt_rec 2 []]) /\
+  rmap vconcat (mapM (spec_firsts 1 pt_t) pt_parts) = Ok (VList [pt_rec 1 [10; 11]; VNone; pt_rec 2 []]).
+Proof. split; reflexivity. Qed.
+
+(* ---- element-wise at EVERY axis (no hypothesis on the axis): is_none, fill_none, flatten(axis) ---- *)
+Theorem spec_is_none_app : forall axis t xs ys,
+  spec_is_none axis t (xs ++ ys) = lift2 vapp (spec_is_none axis t xs) (spec_is_none axis t ys).
+Proof. exact spec_is_none_app_lemma. Qed.
+Print Assumptions spec_is_none_app.
+Theorem spec_is_none_parts : forall axis t parts,
+  parts <> [] -> spec_is_none axis t (concat parts) = rmap vconcat (mapM (spec_is_none axis t) parts).
+Proof. exact spec_is_none_parts_lemma. Qed.
+Print Assumptions spec_is_none_parts.
+Example spec_is_none_parts_ex :
+  spec_is_none 1 pt_t (concat pt_parts)
+    = Ok (VList [VList [VBool false; VBool true]; VList []; VList [VBool false; VBool false; VBool true]]) /\
+  rmap vconcat (mapM (spec_is_none 1 pt_t) pt_parts) = spec_is_none 1 pt_t (concat pt_parts) /\
+  spec_is_none 0 pt_t (concat pt_parts) = Ok (VList [VBool false; VBool false; VBool false]) /\
+  rmap vconcat (mapM (spec_is_none 0 pt_t) pt_parts) = spec_is_none 0 pt_t (concat pt_parts).
+Proof. repeat split; reflexivity. Qed.
+
+Theorem spec_fill_none_app : forall fa v0 t xs ys,
+  spec_fill_none fa v0 t (xs ++ ys) = lift2 vapp (spec_fill_none fa v0 t xs) (spec_fill_none fa v0 t ys).
+Proof. exact spec_fill_none_app_lemma. Qed.
+Print Assumptions spec_fill_none_app.
+Theorem spec_fill_none_parts : forall fa v0 t parts,
+  parts <> [] -> spec_fill_none fa v0 t (concat parts) = rmap vconcat (mapM (spec_fill_none fa v0 t) parts).
+Proof. exact spec_fill_none_parts_lemma. Qed.
+Print Assumptions spec_fill_none_parts.
+Example spec_fill_none_parts_ex :
+  spec_fill_none (FAxis 1) (i64 0) pt_t (concat pt_parts)
+    = Ok (VList [VList [pt_rec 1 [10; 11]; i64 0]; VList []; VList [pt_rec 2 []; pt_rec 3 [30]; i64 0]]) /\
+  rmap vconcat (mapM (spec_fill_none (FAxis 1) (i64 0) pt_t) pt_parts)
+    = spec_fill_none (FAxis 1) (i64 0) pt_t (concat pt_parts) /\
+  rmap vconcat (mapM (spec_fill_none FAll (i64 0) pt_t) pt_parts) = spec_fill_none FAll (i64 0) pt_t (concat pt_parts) /\
+  rmap vconcat (mapM (spec_fill_none FDefault (i64 0) pt_t) pt_parts)
+    = spec_fill_none FDefault (i64 0) pt_t (concat pt_parts).
+Proof. repeat split; reflexivity. Qed.
+
+(* Content::flatten (core specification) and ak.flatten(array, axis): axis 0 only drops the missing entries of the
+   outer level, so also that case is per element; partition.py applies flatten to every partition whatever the axis *)
+Theorem flatten_spec_app : forall axis t xs ys,
+  flatten_spec axis t (xs ++ ys) = lift2 (@app value) (flatten_spec axis t xs) (flatten_spec axis t ys).
+Proof. exact flatten_spec_app_lemma. Qed.
+Print Assumptions flatten_spec_app.
+Theorem spec_flatten_axis_app : forall a t xs ys,
+  spec_flatten (Some a) t (xs ++ ys) = lift2 vapp (spec_flatten (Some a) t xs) (spec_flatten (Some a) t ys).
+Proof. exact spec_flatten_axis_app_lemma. Qed.
+Print Assumptions spec_flatten_axis_app.
+Theorem spec_flatten_axis_parts : forall a t parts,
+  parts <> [] -> spec_flatten (Some a) t (concat parts) = rmap vconcat (mapM (spec_flatten (Some a) t) parts).
+Proof. exact spec_flatten_axis_parts_lemma. Qed.
+Print Assumptions spec_flatten_axis_parts.
+Example spec_flatten_axis_parts_ex :
+  spec_flatten (Some 1) pt_t (concat pt_parts)
+    = Ok (VList [pt_rec 1 [10; 11]; VNone; pt_rec 2 []; pt_rec 3 [30]; VNone]) /\
+  rmap vconcat (mapM (spec_flatten (Some 1) pt_t) pt_parts) = spec_flatten (Some 1) pt_t (concat pt_parts) /\
+  spec_flatten (Some 2) pt_u (concat pt_uparts) = Ok (VList [VList [i64 3; i64 1]; VList []; VList [i64 2; i64 2; i64 0]]) /\
+  rmap vconcat (mapM (spec_flatten (Some 2) pt_u) pt_uparts) = spec_flatten (Some 2) pt_u (concat pt_uparts) /\
+  spec_flatten (Some 0) (TOpt tint) (concat [[i64 1; VNone]; []; [VNone; i64 2]]) = Ok (VList [i64 1; i64 2]) /\
+  rmap vconcat (mapM (spec_flatten (Some 0) (TOpt tint)) [[i64 1; VNone]; []; [VNone; i64 2]]) = Ok (VList [i64 1; i64 2]).
+Proof. repeat split; reflexivity. Qed.
+
+Theorem spec_singletons_app : forall t xs ys,
+  spec_singletons t (xs ++ ys) = lift2 vapp (spec_singletons t xs) (spec_singletons t ys).
+Proof. exact spec_singletons_app_lemma. Qed.
+Print Assumptions spec_singletons_app.
+Theorem spec_values_astype_app : forall to t xs ys,
+  spec_values_astype to t (xs ++ ys) = lift2 vapp (spec_values_astype to t xs) (spec_values_astype to t ys).
+Proof. exact spec_values_astype_app_lemma. Qed.
+Print Assumptions spec_values_astype_app.
+Example spec_singletons_app_ex :
+  spec_singletons pt_t ([VList [pt_rec 1 [10]; VNone]] ++ [VList []])
+    = Ok (VList [VList [VList [pt_rec 1 [10]]; VList []]; VList []]) /\
+  lift2 vapp (spec_singletons pt_t [VList [pt_rec 1 [10]; VNone]]) (spec_singletons pt_t [VList []])
+    = Ok (VList [VList [VList [pt_rec 1 [10]]; VList []]; VList []]).
+Proof. split; reflexivity. Qed.
+
+(* ---- sort / argsort at an inner axis (every axis: "column sort" for a non-innermost one) ---- *)
+Theorem sort_spec_app : forall asc argsort axis t xs ys,
+  axis_inner t axis = true ->
+  sort_spec asc argsort axis t (xs ++ ys) =
+  lift2 (@app value) (sort_spec asc argsort axis t xs) (sort_spec asc argsort axis t ys).
+Proof. exact sort_spec_app_lemma. Qed.
+Print Assumptions sort_spec_app.
+Theorem sort_spec_parts : forall asc argsort axis t parts,
+  axis_inner t axis = true -> parts <> [] ->
+  sort_spec asc argsort axis t (concat parts) = rmap (@concat value) (mapM (sort_spec asc argsort axis t) parts).
+Proof. exact sort_spec_parts_lemma. Qed.
+Print Assumptions sort_spec_parts.
+Theorem sort_spec_inner_app : forall asc argsort axis t xs ys,
+  axis_inner t axis = true ->
+  sort_spec_inner asc argsort axis t (xs ++ ys) =
+  lift2 (@app value) (sort_spec_inner asc argsort axis t xs) (sort_spec_inner asc argsort axis t ys).
+Proof. exact sort_spec_inner_app_lemma. Qed.
+Print Assumptions sort_spec_inner_app.
+Example sort_spec_parts_ex :
+  sort_spec true false (-1) pt_u (concat pt_uparts)
+    = Ok [VList [VList [i64 1; i64 3]; VNone]; VList []; VList [VList []; VList [i64 0; i64 2; i64 2]]] /\
+  rmap (@concat value) (mapM (sort_spec true false (-1) pt_u) pt_uparts) = sort_spec true false (-1) pt_u (concat pt_uparts) /\
+  (* argsort, descending, axis 1 (not the innermost one): positions within each outer list, column by column *)
+  sort_spec false true 1 pt_u (concat pt_uparts)
+    = Ok [VList [VList [i64 0; i64 0]; VNone]; VList []; VList [VList []; VList [i64 1; i64 1; i64 1]]] /\
+  rmap (@concat value) (mapM (sort_spec false true 1 pt_u) pt_uparts) = sort_spec false true 1 pt_u (concat pt_uparts).
+Proof. repeat split; reflexivity. Qed.
+
+(* ---- reducers with an axis ---- *)
+Theorem reduce_spec_app : forall r axis mask keep t xs ys,
+  axis_inner t axis = true ->
+  reduce_spec r axis mask keep t (xs ++ ys) =
+  lift2 (@app value) (reduce_spec r axis mask keep t xs) (reduce_spec r axis mask keep t ys).
+Proof. exact reduce_spec_app_lemma. Qed.
+Print Assumptions reduce_spec_app.
+Theorem reduce_spec_parts : forall r axis mask keep t parts,
+  axis_inner t axis = true -> parts <> [] ->
+  reduce_spec r axis mask keep t (concat parts) = rmap (@concat value) (mapM (reduce_spec r axis mask keep t) parts).
+Proof. exact reduce_spec_parts_lemma. Qed.
+Print Assumptions reduce_spec_parts.
+Theorem spec_reduce_py_app : forall r a mask keep t xs ys,
+  axis_inner t a = true ->
+  spec_reduce_py r (Some a) mask keep t (xs ++ ys) =
+  lift2 vapp (spec_reduce_py r (Some a) mask keep t xs) (spec_reduce_py r (Some a) mask keep t ys).
+Proof. exact spec_reduce_py_app_lemma. Qed.
+Print Assumptions spec_reduce_py_app.
+Theorem spec_reduce_py_parts : forall r a mask keep t parts,
+  axis_inner t a = true -> parts <> [] ->
+  spec_reduce_py r (Some a) mask keep t (concat parts) = rmap vconcat (mapM (spec_reduce_py r (Some a) mask keep t) parts).
+Proof. exact spec_reduce_py_parts_lemma. Qed.
+Print Assumptions spec_reduce_py_parts.
+(* PartitionedArray.reduce decides with "not branch and negaxis == depth" ([py_reduce_whole]): whenever that sends the
+   reducer to the partitions and the axis is not literally 0, the axis is an inner one *)
+Theorem py_reduce_rule_sound : forall t axis,
+  py_reduce_whole t axis = false -> axis <> 0 -> axis_inner t axis = true.
+Proof. exact py_reduce_rule_sound_lemma. Qed.
+Print Assumptions py_reduce_rule_sound.
+Example spec_reduce_py_parts_ex :
+  spec_reduce_py RSum (Some 1) None false pt_t (concat pt_parts)
+    = Ok (VList [pt_rec 1 [10; 11]; pt_rec 0 []; pt_rec 5 [30]]) /\
+  rmap vconcat (mapM (spec_reduce_py RSum (Some 1) None false pt_t) pt_parts)
+    = spec_reduce_py RSum (Some 1) None false pt_t (concat pt_parts) /\
+  spec_reduce_py RMax (Some (-1)) None true pt_u (concat pt_uparts)
+    = Ok (VList [VList [VList [i64 3]; VNone]; VList []; VList [VList [VNone]; VList [i64 2]]]) /\
+  rmap vconcat (mapM (spec_reduce_py RMax (Some (-1)) None true pt_u) pt_uparts)
+    = spec_reduce_py RMax (Some (-1)) None true pt_u (concat pt_uparts) /\
+  spec_reduce_py RArgmax (Some (-1)) None false pt_u (concat pt_uparts)
+    = Ok (VList [VList [i64 0; VNone]; VList []; VList [VNone; i64 0]]) /\
+  py_reduce_whole pt_u (-1) = false /\ py_reduce_whole pt_u (-3) = true /\ py_reduce_whole pt_u 0 = true.
+Proof. repeat split; reflexivity. Qed.
+(* REFUTED: axis 0 on a record type whose fields differ in depth - partition.py's test is false (per partition) although
+   the axis is the outermost one.  (The implementation refuses this call on both sides; the reachable relative is
+   axis = -(min depth), which [reduce_spec] refuses - see Proofs_Partition2.v and the finding
+   partitioned-reduce-negaxis-branching-records.) *)
+Example reduce_axis0_branching_record_refuted_ex :
+  let t := TRec (Some [[120]; [121]]) [tint; TList None None tint] in
+  let xs := [VRec [([120], i64 1); ([121], VList [i64 10])]] in
+  let ys := [VRec [([120], i64 2); ([121], VList [i64 20; i64 30])]] in
+  py_reduce_whole t 0 = false /\ axis_inner t 0 = false /\ resolve_axis t 0 0 = Ok 0 /\
+  reduce_spec RSum 0 false false t (xs ++ ys) = Ok [VRec [([120], i64 3); ([121], VList [i64 30; i64 30])]] /\
+  lift2 (@app value) (reduce_spec RSum 0 false false t xs) (reduce_spec RSum 0 false false t ys)
+    = Ok [VRec [([120], i64 1); ([121], VList [i64 10])]; VRec [([120], i64 2); ([121], VList [i64 20; i64 30])]].
+Proof. exact reduce_axis0_branching_record_refuted. Qed.
+
+(* ====================================================================== the axis IS the outermost one *)
+(* num: the per-partition counts are added (sum(prepared)) *)
+Theorem spec_num_top_app : forall axis t xs ys,
+  resolve_axis_top t axis = Ok 0 ->
+  spec_num axis t (xs ++ ys) = lift2 vadd (spec_num axis t xs) (spec_num axis t ys).
+Proof. exact spec_num_top_app_lemma. Qed.
+Print Assumptions spec_num_top_app.
+Theorem spec_num_top_parts : forall axis t parts,
+  resolve_axis_top t axis = Ok 0 -> is_union t = false ->
+  spec_num axis t (concat parts) = Ok (VNum (DZ (sumZ (map (@zlen value) parts)))) /\
+  spec_num axis t (concat parts) =
+    fold_right (fun p acc => lift2 vadd (spec_num axis t p) acc) (spec_num axis t []) parts.
+Proof. exact spec_num_top_parts_lemma. Qed.
+Print Assumptions spec_num_top_parts.
+Example spec_num_top_parts_ex :
+  spec_num 0 pt_t (concat pt_parts) = Ok (i64 3) /\ mapM (spec_num 0 pt_t) pt_parts = Ok [i64 2; i64 0; i64 1] /\
+  spec_num (-3) pt_u (concat pt_uparts) = Ok (i64 3).
+Proof. repeat split; reflexivity. Qed.
+
+(* local_index: partition k continues counting at the sum of the earlier lengths ([li_parts]: the loop of partition.py) *)
+Theorem spec_local_index_top_parts : forall axis t parts,
+  resolve_axis_top t axis = Ok 0 ->
+  spec_local_index axis t (concat parts) = Ok (VList (concat (li_parts 0 parts))).
+Proof. exact spec_local_index_top_parts_lemma. Qed.
+Print Assumptions spec_local_index_top_parts.
+Theorem spec_local_index_top_app : forall axis t xs ys,
+  resolve_axis_top t axis = Ok 0 ->
+  spec_local_index axis t (xs ++ ys) =
+  lift2 vapp (spec_local_index axis t xs) (Ok (VList (map vint (range (zlen xs) (zlen xs + zlen ys))))).
+Proof. exact spec_local_index_top_app_lemma. Qed.
+Print Assumptions spec_local_index_top_app.
+Example spec_local_index_top_parts_ex :
+  spec_local_index 0 pt_t (concat pt_parts) = Ok (VList [i64 0; i64 1; i64 2]) /\
+  li_parts 0 pt_parts = [[i64 0; i64 1]; []; [i64 2]].
+Proof. split; reflexivity. Qed.
+
+(* ====================================================================== reducers with axis=None *)
+(* closed form of the reducers over the flattened integer leaves *)
+Theorem red_leaves_closed_form : forall r dt zs, red_leaves r dt zs = red_val r dt zs.
+Proof. exact red_leaves_val. Qed.
+Print Assumptions red_leaves_closed_form.
+Theorem reduce_leaves_closed_form : forall r dt zs,
+  reduce_leaves r dt zs =
+  if float_unspec r dt zs then Err EFuel
+  else if is_arg r then match zs with [] => Err EValue | _ => Ok (red_val r dt zs) end
+  else Ok (red_val r dt zs).
+Proof. exact reduce_leaves_val. Qed.
+Print Assumptions reduce_leaves_closed_form.
+(* count / count_nonzero / sum / prod / any / all / min / max: the whole = the reducer's own combination of the parts;
+   the result for nothing (0, 1, False, True, None) is its unit *)
+Theorem red_val_app : forall r dt a b,
+  is_arg r = false -> red_val r dt (a ++ b) = red_comb r dt (red_val r dt a) (red_val r dt b).
+Proof. exact red_val_app_lemma. Qed.
+Print Assumptions red_val_app.
+Theorem red_val_parts : forall r dt (zss : list (list Z)),
+  is_arg r = false ->
+  red_val r dt (concat zss) = fold_right (red_comb r dt) (red_val r dt []) (map (red_val r dt) zss).
+Proof. exact red_val_parts_lemma. Qed.
+Print Assumptions red_val_parts.
+Theorem red_comb_unit : forall r dt zs,
+  is_arg r = false ->
+  red_comb r dt (red_val r dt zs) (red_val r dt []) = red_val r dt zs /\
+  red_comb r dt (red_val r dt []) (red_val r dt zs) = red_val r dt zs.
+Proof. exact red_comb_unit_lemma. Qed.
+Print Assumptions red_comb_unit.
+Example red_val_parts_ex :
+  map (fun r => red_val r DInt64 (concat [[3; 1]; []; [2; 2; 0]])) [RCount; RCountNonzero; RSum; RProd; RAny; RAll; RMin; RMax]
+    = [i64 5; i64 4; i64 8; i64 0; VBool true; VBool false; i64 0; i64 3] /\
+  map (fun r => fold_right (red_comb r DInt64) (red_val r DInt64 []) (map (red_val r DInt64) [[3; 1]; []; [2; 2; 0]]))
+      [RCount; RCountNonzero; RSum; RProd; RAny; RAll; RMin; RMax]
+    = [i64 5; i64 4; i64 8; i64 0; VBool true; VBool false; i64 0; i64 3] /\
+  map (red_val RMin DInt64) [[3; 1]; []; [2; 2; 0]] = [i64 1; VNone; i64 0] /\
+  (* the 64-bit accumulator wraps, and wrapping commutes with the combination: (2^64 - 1) + 2 = 1 as uint64 *)
+  red_val RSum DUInt64 (concat [[18446744073709551615]; [2]]) = i64 1 /\
+  red_comb RSum DUInt64 (red_val RSum DUInt64 [18446744073709551615]) (red_val RSum DUInt64 [2]) = i64 1.
+Proof. repeat split; reflexivity. Qed.
+
+(* argmin / argmax: the loop of reducers.py over the partitions = first extremum of the concatenated leaves *)
+Theorem arg_parts_first_min : forall zss, arg_parts Z.ltb 0 None zss = argbest Z.ltb None (enum (concat zss)).
+Proof. exact arg_parts_first_min_lemma. Qed.
+Print Assumptions arg_parts_first_min.
+Theorem arg_parts_first_max : forall zss, arg_parts Z.gtb 0 None zss = argbest Z.gtb None (enum (concat zss)).
+Proof. exact arg_parts_first_max_lemma. Qed.
+Print Assumptions arg_parts_first_max.
+Theorem reduce_leaves_arg_parts : forall r dt (zss : list (list Z)),
+  is_arg r = true -> reduce_leaves r dt (concat zss) = py_arg_parts r zss.
+Proof. exact reduce_leaves_arg_parts_lemma. Qed.
+Print Assumptions reduce_leaves_arg_parts.
+Example py_arg_parts_ex :
+  (* ties: the earliest partition wins; positions count flattened items, the empty partition is skipped *)
+  py_arg_parts RArgmax [[1; 3]; []; [3; 0]] = Ok (i64 1) /\ py_arg_parts RArgmin [[1; 3]; []; [3; 0]] = Ok (i64 3) /\
+  py_arg_parts RArgmin [[5]; [5; 5]] = Ok (i64 0) /\ py_arg_parts RArgmax [[]; []] = Err EValue /\
+  reduce_leaves RArgmax DInt64 (concat [[1; 3]; []; [3; 0]]) = Ok (i64 1).
+Proof. repeat split; reflexivity. Qed.
+
+(* the leaves (_util.completely_flatten) of a partitioned array without records, and ak.flatten(axis=None) *)
+Theorem leaves_l_app : forall t, plain t = true -> forall xs ys,
+  leaves_l t (xs ++ ys) = lift2 (@app value) (leaves_l t xs) (leaves_l t ys).
+Proof. exact leaves_l_app_lemma. Qed.
+Print Assumptions leaves_l_app.
+Theorem spec_flatten_none_app : forall t xs ys,
+  has_rec t = false ->
+  spec_flatten None t (xs ++ ys) = lift2 vapp (spec_flatten None t xs) (spec_flatten None t ys).
+Proof. exact spec_flatten_none_app_lemma. Qed.
+Print Assumptions spec_flatten_none_app.
+Theorem spec_flatten_none_parts : forall t parts,
+  has_rec t = false -> parts <> [] ->
+  spec_flatten None t (concat parts) = rmap vconcat (mapM (spec_flatten None t) parts).
+Proof. exact spec_flatten_none_parts_lemma. Qed.
+Print Assumptions spec_flatten_none_parts.
+Example spec_flatten_none_parts_ex :
+  plain pt_u = true /\
+  spec_flatten None pt_u (concat pt_uparts) = Ok (VList [i64 3; i64 1; i64 2; i64 2; i64 0]) /\
+  rmap vconcat (mapM (spec_flatten None pt_u) pt_uparts) = Ok (VList [i64 3; i64 1; i64 2; i64 2; i64 0]).
+Proof. repeat split; reflexivity. Qed.
+(* REFUTED for records: the leaves come field by field over the WHOLE array *)
+Example flatten_none_records_refuted_ex :
+  let t := TRec None [tint; tint] in
+  let xs := [VTup [i64 8; i64 (-7)]] in
+  let ys := [VTup [i64 (-5); i64 (-2)]] in
+  spec_flatten None t (xs ++ ys) = Ok (VList [i64 8; i64 (-5); i64 (-7); i64 (-2)]) /\
+  lift2 vapp (spec_flatten None t xs) (spec_flatten None t ys) = Ok (VList [i64 8; i64 (-7); i64 (-5); i64 (-2)]).
+Proof. exact flatten_none_records_refuted. Qed.
+
+(* the reducers of the Python layer with axis=None on a partitioned array (no records, one leaf dtype) *)
+Theorem spec_reduce_none_concat : forall r t dt parts zss,
+  single_dt (leaf_dts t) = Some dt -> plain t = true ->
+  mapM (leaf_ints t) parts = Ok zss ->
+  spec_reduce_none r t (concat parts) = reduce_leaves r dt (concat zss).
+Proof. exact spec_reduce_none_concat_lemma. Qed.
+Print Assumptions spec_reduce_none_concat.
+Theorem reduce_none_parts : forall r t dt parts vs v,
+  single_dt (leaf_dts t) = Some dt -> plain t = true -> is_arg r = false ->
+  mapM (spec_reduce_none r t) parts = Ok vs ->
+  spec_reduce_none r t (concat parts) = Ok v ->
+  v = fold_right (red_comb r dt) (red_val r dt []) vs.
+Proof. exact reduce_none_parts_lemma. Qed.
+Print Assumptions reduce_none_parts.
+Theorem reduce_none_parts_exact : forall r t dt parts vs,
+  single_dt (leaf_dts t) = Some dt -> plain t = true -> is_arg r = false -> is_float dt = false ->
+  mapM (spec_reduce_none r t) parts = Ok vs ->
+  spec_reduce_none r t (concat parts) = Ok (fold_right (red_comb r dt) (red_val r dt []) vs).
+Proof. exact reduce_none_parts_exact_lemma. Qed.
+Print Assumptions reduce_none_parts_exact.
+Theorem reduce_none_arg_parts : forall r t dt parts zss,
+  single_dt (leaf_dts t) = Some dt -> plain t = true -> is_arg r = true ->
+  mapM (leaf_ints t) parts = Ok zss ->
+  spec_reduce_none r t (concat parts) = py_arg_parts r zss.
+Proof. exact reduce_none_arg_parts_lemma. Qed.
+Print Assumptions reduce_none_arg_parts.
+Example reduce_none_parts_ex :
+  single_dt (leaf_dts pt_u) = Some DInt64 /\ mapM (leaf_ints pt_u) pt_uparts = Ok [[3; 1]; []; [2; 2; 0]] /\
+  mapM (spec_reduce_none RSum pt_u) pt_uparts = Ok [i64 4; i64 0; i64 4] /\
+  spec_reduce_none RSum pt_u (concat pt_uparts) = Ok (i64 8) /\
+  mapM (spec_reduce_none RMin pt_u) pt_uparts = Ok [i64 1; VNone; i64 0] /\
+  spec_reduce_none RMin pt_u (concat pt_uparts) = Ok (i64 0) /\
+  fold_right (red_comb RMin DInt64) (red_val RMin DInt64 []) [i64 1; VNone; i64 0] = i64 0 /\
+  spec_reduce_none RArgmax pt_u (concat pt_uparts) = Ok (i64 0) /\ py_arg_parts RArgmax [[3; 1]; []; [2; 2; 0]] = Ok (i64 0).
+Proof. repeat split; reflexivity. Qed.
+
+(* ---- records allowed: the leaves of the concatenation are a PERMUTATION of the per-partition leaves (field-major
+        order), and count / count_nonzero / sum / prod / any / all / min / max do not depend on the order ---- *)
+Theorem leaves_l_perm : forall t, has_union t = false -> forall xs ys a b,
+  leaves_l t xs = Ok a -> leaves_l t ys = Ok b ->
+  exists c, leaves_l t (xs ++ ys) = Ok c /\ Permutation c (a ++ b).
+Proof. exact leaves_l_perm_lemma. Qed.
+Print Assumptions leaves_l_perm.
+Theorem red_val_perm : forall r dt a b,
+  is_arg r = false -> Permutation a b -> red_val r dt a = red_val r dt b.
+Proof. exact red_val_perm_lemma. Qed.
+Print Assumptions red_val_perm.
+Theorem reduce_none_parts_records : forall r t dt parts vs v,
+  single_dt (leaf_dts t) = Some dt -> has_union t = false -> is_arg r = false ->
+  mapM (spec_reduce_none r t) parts = Ok vs ->
+  spec_reduce_none r t (concat parts) = Ok v ->
+  v = fold_right (red_comb r dt) (red_val r dt []) vs.
+Proof. exact reduce_none_parts_records_lemma. Qed.
+Print Assumptions reduce_none_parts_records.
+Theorem reduce_none_parts_records_exact : forall r t dt parts vs,
+  single_dt (leaf_dts t) = Some dt -> has_union t = false -> is_arg r = false -> is_float dt = false ->
+  mapM (spec_reduce_none r t) parts = Ok vs ->
+  spec_reduce_none r t (concat parts) = Ok (fold_right (red_comb r dt) (red_val r dt []) vs).
+Proof. exact reduce_none_parts_records_exact_lemma. Qed.
+Print Assumptions reduce_none_parts_records_exact.
+Example reduce_none_parts_records_ex :
+  single_dt (leaf_dts pt_t) = Some DInt64 /\ has_union pt_t = false /\
+  leaves_l pt_t (concat pt_parts) = Ok [i64 1; i64 2; i64 3; i64 10; i64 11; i64 30] /\
+  mapM (leaves_l pt_t) pt_parts = Ok [[i64 1; i64 10; i64 11]; []; [i64 2; i64 3; i64 30]] /\
+  mapM (spec_reduce_none RSum pt_t) pt_parts = Ok [i64 22; i64 0; i64 35] /\
+  spec_reduce_none RSum pt_t (concat pt_parts) = Ok (i64 57) /\
+  mapM (spec_reduce_none RMax pt_t) pt_parts = Ok [i64 11; VNone; i64 30] /\
+  spec_reduce_none RMax pt_t (concat pt_parts) = Ok (i64 30) /\
+  fold_right (red_comb RMax DInt64) (red_val RMax DInt64 []) [i64 11; VNone; i64 30] = i64 30.
+Proof. repeat split; reflexivity. Qed.
